@@ -1220,6 +1220,14 @@ def _profile_collector(store, roots):
     return prof
 
 
+_VERIF_ROOT = os.path.dirname(os.path.dirname(os.path.abspath(__file__)))
+
+
+def _ours(filename):
+    """exception raised inside /verif code other than the optlang-compatible stub (whose errors mirror optlang's)"""
+    return filename.startswith(_VERIF_ROOT) and not filename.endswith("symlp.py")
+
+
 def run_one(harness, prefix, res, profile=False, witness_every=0, timeout_ms=30000,
             roots=("/repo/src/",)):
     """execute one path; returns list of pending prefixes"""
@@ -1248,7 +1256,15 @@ def run_one(harness, prefix, res, profile=False, witness_every=0, timeout_ms=300
     except Exception as e:  # unexpected exception escaping the code under test / harness
         tb = traceback.extract_tb(e.__traceback__)
         inner = tb[-1].filename if tb else ""
+        if _ours(inner):
+            # raised by our own harness / oracle / engine code: a harness error, never a verdict
+            res.errors.append(dict(kind="harness-exception:" + type(e).__name__, why=str(e)[:300], trace=p.trace[:30],
+                                   tb=traceback.format_exc()[-1500:]))
+            status = "error"
+            inner = None
         try:
+            if inner is None:
+                raise Abort("harness error")
             p.fail("unexpected-exception", exc=type(e).__name__, msg=str(e)[:300],
                    where="%s:%s" % (inner, tb[-1].lineno if tb else 0),
                    tb=traceback.format_exc()[-1200:])
@@ -1379,6 +1395,8 @@ def run_concrete(harness, inputs, tol=1e-6):
     except Exception as e:
         tb = traceback.extract_tb(e.__traceback__)
         p.exception = (type(e).__name__, str(e)[:300])
+        if tb and tb[-1].filename.startswith(_VERIF_ROOT):
+            raise
         p.failures.append(dict(label="unexpected-exception", inputs=jsonable(p.inputs), trace=list(p.trace),
                                detail=jsonable(dict({k: v for k, v in p.notes.items() if not k.startswith("_")}, exc=type(e).__name__, msg=str(e)[:300],
                                                     tb=traceback.format_exc()[-1200:]))))
